@@ -111,6 +111,9 @@ def run(rep):
     # the other way a loop ends: hand-over to a self-consuming call issued while earlier calls are still queued
     for lib in gen_impl.LIBS:
         runs += [["consume", lib, ch, "handles=1", "pending=%d" % (ch or 3)] for ch in ((0, 2) if rep.tier == "quick" else (0, 1, 2, 3))]
+    # a model with a consuming method whose handles are dropped without ever calling it ends like any other
+    for lib in gen_impl.LIBS:
+        runs += [["consume", lib, ch, "handles=%d" % hn, "nofin=1"] + (["pending=2"] if hn == 1 else []) for ch, hn in ((0, 1), (2, 3))]
     # "starts exactly one actor thread": the constructor called when the OS refuses a new thread
     runs += [["nothread", "std", 0], ["nothread", "std", 2]]
     # the last handle dropped while an accepted call is suspended at an await point inside the user's async method
